@@ -1,7 +1,24 @@
 (* C18 run table. The crash search itself needs no model: the expected observable is the
-   constant "nopanic". *)
-From Verif Require Import Lib.Bytes.
+   constant "nopanic". The nesting guard (json.go jsonNestingExceeds, repair of F48) is compared
+   with its index-level model. *)
+From Verif Require Import Lib.Bytes Crash.Outcome Crash.Nesting.
 Open Scope N_scope.
 
+Definition run_nesting (args : list bytes) : bytes :=
+  match args with
+  | [input; limit] =>
+      match parse_int limit with
+      | Some l =>
+          match json_nesting_exceeds input l with
+          | Ret true => bs "true"
+          | Ret false => bs "false"
+          | Crash => bs "crash"
+          end
+      | None => bs "badargs"
+      end
+  | _ => bs "badargs"
+  end.
+
 Definition ops_C18 : list (bytes * (list bytes -> bytes)) :=
-  [ (bs "C18.nopanic", fun _ => bs "nopanic") ].
+  [ (bs "C18.nopanic", fun _ => bs "nopanic");
+    (bs "C18.nesting", run_nesting) ].
